@@ -16,6 +16,10 @@ import MajoranaVerif.Proofs.Mvp3Cycles
 import MajoranaVerif.Proofs.CycleTrace
 import MajoranaVerif.Proofs.CycleTraceMvp3
 import MajoranaVerif.Proofs.Mvp5Cycles
+import MajoranaVerif.Proofs.Mvp4ValueIndep
+import MajoranaVerif.Proofs.Mvp5ValueIndep
+import MajoranaVerif.Proofs.Mvp60
+import MajoranaVerif.Proofs.Mvp60Witness
 open GoInt Model.Seq Proofs.Seq
 
 namespace Props.C12
@@ -459,5 +463,135 @@ example :
     (Model.Mvp5.run { instrs := [.li_ { rd := 5, imm := 7#32 }, .addi_ { rd := 6, rs := 5, imm := 1#32 }, .ret_ {}], labels := {} }
         { Memory := List.replicate 64 0#8 } 4000).final.base.cycles = 314 := by
   decide +kernel
+
+end Props.C12
+
+/-! ### value independence of the pipelined machine MVP-4 (work package VI45)
+
+Two runs of one program on the cycle-accurate model `Model.Mvp4` are compared tick by tick (`Proofs/Mvp4ValueIndep.lean`).
+*Shape equality* `Proofs.Mvp4.Sh` of two machine states: all control state equal — mode of the `Run` loop, counters and
+flags of the four units, the pcs and instructions in the buses, both scoreboards, the cycle counter, the resident L1I /
+L1D line addresses and their LRU order — everything except register values, memory bytes, cache line data and the values
+of queued results.  Fetch, decode, write unit, drain / flush and the final cache flush preserve it unconditionally
+(`fetchCycle_sh`, `decodeCycle_sh`, `writeCycle_sh`, `afterExecute_sh`; the memory-management unit through the erasure
+lemmas of `Proofs.CycleTraceMvp3`); the execute unit preserves it when the two architectural states give the same timing
+event (`executeCycle_sh`): its operands are the architectural ones (register interlock, store→load interlock), so load
+addresses, kind of result, store addresses and next pc are those of the trace (`resOk_of_events`).  The two runs execute
+their instructions in the same ticks (`cycleM_x`: the count of `executeUnit.run` calls tells a stutter tick from an
+executing one), hence stay at the same position of the common trace (`runFrom_vi`). -/
+
+namespace Props.C12
+
+/-- **C12, value independence, MVP-4**: one program, two initial contexts — any registers, any memory contents of the
+same size, empty scoreboards —, both specification runs well-formed and ending within `fuel`, EQUAL timing traces of the
+unpipelined machine (same pcs, instructions, load / store addresses, write-back kinds, same end): then for EVERY tick
+budget the two MVP-4 runs end the same way, after the same number of ticks, with the same cycle count. -/
+theorem mvp4_cycles_value_independent (app : App) (hw : Proofs.Refine.WfApp app) (ctx1 ctx2 : Model.Context)
+    (m1 m2 : Spec.Machine) (hR1 : Proofs.Refine.Rel ctx1 m1) (hR2 : Proofs.Refine.Rel ctx2 m2)
+    (hsz1 : m1.mem.size + 64 ≤ 2 ^ 31) (hsz2 : m2.mem.size + 64 ≤ 2 ^ 31)
+    (hpw1 : ctx1.PendingWriteRegisters = {}) (hpw2 : ctx2.PendingWriteRegisters = {})
+    (hlen : ctx1.Memory.length = ctx2.Memory.length) (fuel : Nat)
+    (hwf1 : ∀ why, (Spec.run (Proofs.Refine.specProg app) m1 fuel).stop ≠ .notWf why)
+    (hwf2 : ∀ why, (Spec.run (Proofs.Refine.specProg app) m2 fuel).stop ≠ .notWf why)
+    (htr : Model.Timing.traceSeq Gen.Consts.mvp1.cyclesDecode app fuel ⟨ctx1, 0#32⟩ =
+           Model.Timing.traceSeq Gen.Consts.mvp1.cyclesDecode app fuel ⟨ctx2, 0#32⟩)
+    (ticks : Nat) :
+    (Model.Mvp4.run app ctx1 ticks).halt = (Model.Mvp4.run app ctx2 ticks).halt ∧
+    (Model.Mvp4.run app ctx1 ticks).final.cycles = (Model.Mvp4.run app ctx2 ticks).final.cycles ∧
+    (Model.Mvp4.run app ctx1 ticks).ticks = (Model.Mvp4.run app ctx2 ticks).ticks :=
+  Proofs.Mvp4.mvp4_value_independent app hw ctx1 ctx2 m1 m2 hR1 hR2 hsz1 hsz2 hpw1 hpw2 hlen fuel hwf1 hwf2 htr ticks
+
+/-- Non-vacuity (MVP-4): the two states of the examples above — different register files, different memory contents, equal
+timing traces — give different final memories and THE SAME cycle count (load miss, add, store to the cached line, `ret`,
+final flush of one line) -/
+example :
+    Model.Timing.traceSeq Gen.Consts.mvp1.cyclesDecode viApp 10 viState1 = Model.Timing.traceSeq Gen.Consts.mvp1.cyclesDecode viApp 10 viState2 ∧
+    (Model.Mvp4.run viApp viState1.ctx 4000).final.ctx.Memory ≠ (Model.Mvp4.run viApp viState2.ctx 4000).final.ctx.Memory ∧
+    (Model.Mvp4.run viApp viState1.ctx 4000).halt = some .ret ∧
+    (Model.Mvp4.run viApp viState1.ctx 4000).final.cycles = (Model.Mvp4.run viApp viState2.ctx 4000).final.cycles ∧
+    0 < (Model.Mvp4.run viApp viState1.ctx 4000).final.cycles := by
+  decide +kernel
+
+end Props.C12
+
+/-! ### value independence of MVP-5 (work package VI45)
+
+`Proofs/Mvp5ValueIndep.lean`: shape equality `Proofs.Mvp5.Sh5` = MVP-4's on the common part of the state, plus equal
+cleaning flag of the fetch unit, equal decode-stall flag and EQUAL branch target buffers (the BTB holds pcs and jump
+targets — both part of the timing trace).  Instructions that are not unconditional jumps go through MVP-4's execute
+unit (`euIssue_nonjump`, `euMemDone_nonjump`); for a jump the BTB lookup, the redirection of the fetch unit at issue,
+the target learnt and the redirection at execution are the same in both runs because the target is the next pc of the
+common trace (`resOk_jump`, `euIssueTail_jump_sh`). -/
+
+namespace Props.C12
+
+/-- **C12, value independence, MVP-5** (same statement as for MVP-4) -/
+theorem mvp5_cycles_value_independent (app : App) (hw : Proofs.Refine.WfApp app) (ctx1 ctx2 : Model.Context)
+    (m1 m2 : Spec.Machine) (hR1 : Proofs.Refine.Rel ctx1 m1) (hR2 : Proofs.Refine.Rel ctx2 m2)
+    (hsz1 : m1.mem.size + 64 ≤ 2 ^ 31) (hsz2 : m2.mem.size + 64 ≤ 2 ^ 31)
+    (hpw1 : ctx1.PendingWriteRegisters = {}) (hpw2 : ctx2.PendingWriteRegisters = {})
+    (hlen : ctx1.Memory.length = ctx2.Memory.length) (fuel : Nat)
+    (hwf1 : ∀ why, (Spec.run (Proofs.Refine.specProg app) m1 fuel).stop ≠ .notWf why)
+    (hwf2 : ∀ why, (Spec.run (Proofs.Refine.specProg app) m2 fuel).stop ≠ .notWf why)
+    (htr : Model.Timing.traceSeq Gen.Consts.mvp1.cyclesDecode app fuel ⟨ctx1, 0#32⟩ =
+           Model.Timing.traceSeq Gen.Consts.mvp1.cyclesDecode app fuel ⟨ctx2, 0#32⟩)
+    (ticks : Nat) :
+    (Model.Mvp5.run app ctx1 ticks).halt = (Model.Mvp5.run app ctx2 ticks).halt ∧
+    (Model.Mvp5.run app ctx1 ticks).final.base.cycles = (Model.Mvp5.run app ctx2 ticks).final.base.cycles ∧
+    (Model.Mvp5.run app ctx1 ticks).ticks = (Model.Mvp5.run app ctx2 ticks).ticks :=
+  Proofs.Mvp5.mvp5_value_independent app hw ctx1 ctx2 m1 m2 hR1 hR2 hsz1 hsz2 hpw1 hpw2 hlen fuel hwf1 hwf2 htr ticks
+
+/-- a loop with a jump executed twice (BTB miss, then hit), a call and a return through `jalr`; the loop bound is an
+immediate, the data registers differ between the two states below -/
+def viApp5 : App :=
+  { instrs := [.li_ { rd := 5, imm := 0#32 }, .li_ { rd := 9, imm := 2#32 }, .j_ { label := "A" },
+               .li_ { rd := 6, imm := 99#32 }, .add_ { rd := 10, rs1 := 28, rs2 := 29 }, .div_ { rd := 8, rs1 := 6, rs2 := 0 },
+               .addi_ { rd := 5, rs := 5, imm := 1#32 }, .bne_ { rs1 := 5, rs2 := 9, label := "L" },
+               .jal_ { rd := 1, label := "F" }, .add_ { rd := 7, rs1 := 28, rs2 := 29 }, .ret_ {},
+               .jalr_ { rd := 0, rs := 1, imm := 0#32 }],
+    labels := ⟨[("L", 8#32), ("A", 24#32), ("F", 44#32)]⟩ }
+
+/-- Non-vacuity (MVP-5): different register files and memory contents, equal timing traces, different results, THE
+SAME cycle count -/
+example :
+    Model.Timing.traceSeq Gen.Consts.mvp1.cyclesDecode viApp5 30 viState1 = Model.Timing.traceSeq Gen.Consts.mvp1.cyclesDecode viApp5 30 viState2 ∧
+    GoMap.get1 (Model.Mvp5.run viApp5 viState1.ctx 6000).final.base.ctx.Registers 7 ≠
+      GoMap.get1 (Model.Mvp5.run viApp5 viState2.ctx 6000).final.base.ctx.Registers 7 ∧
+    (Model.Mvp5.run viApp5 viState1.ctx 6000).halt = some .ret ∧
+    (Model.Mvp5.run viApp5 viState1.ctx 6000).final.base.cycles = (Model.Mvp5.run viApp5 viState2.ctx 6000).final.base.cycles ∧
+    0 < (Model.Mvp5.run viApp5 viState1.ctx 6000).final.base.cycles := by
+  decide +kernel
+
+end Props.C12
+
+/-! ## MVP-6.0 (package M60): the lower bound for the first superscalar variant
+
+`Model.Mvp60` is the cycle-accurate model of `proc/mvp6-0` (`eu` execute units, `wu` write units; one `cycle` per
+`ctx.VerifTick()`), tied to the Go machine by exact agreement of status, cycle count, tick count and final registers and
+memory on every generated case (fields `m60pK` of the driver; `Model.Mvp60.runFast`, the same run with the idle
+stretches skipped). -/
+namespace Props.C12
+
+/-- **C12 lower bound, MVP-6.0.**  A machine with `eu` execute units executes at most `eu` instructions per tick
+(`executed` counts the calls of an instruction's `Run`, wrong-path instructions included), and a run that does not end in
+a Go panic returns a cycle count of at least its number of ticks: `executed ≤ eu · cycles` — no generated program can
+finish faster than `steps / eu` cycles. -/
+theorem mvp60_lower_bound (app : App) (ctx : Model.Context) (eu wu fuel : Nat) :
+    (Model.Mvp60.run app ctx eu wu fuel).final.executed ≤ eu * (Model.Mvp60.run app ctx eu wu fuel).ticks ∧
+    (Proofs.Mvp60.Clean (Model.Mvp60.run app ctx eu wu fuel).halt →
+      ((Model.Mvp60.run app ctx eu wu fuel).ticks : Int) ≤ (Model.Mvp60.run app ctx eu wu fuel).final.cycles ∧
+      ((Model.Mvp60.run app ctx eu wu fuel).final.executed : Int) ≤ eu * (Model.Mvp60.run app ctx eu wu fuel).final.cycles) :=
+  Proofs.Mvp60.run_executed_le app ctx eu wu fuel
+
+/-- Non-vacuity: a run that ends normally (`Clean`) with instructions executed — the two-unit run of
+`Proofs.Mvp60Witness.dropApp` ends `offEnd` after 319 cycles with one instruction executed -/
+example : Proofs.Mvp60.Clean (Model.Mvp60.run Proofs.Mvp60Witness.dropApp (Proofs.Mvp60Witness.ctxS0 64) 2 2 1000).halt ∧
+    (Model.Mvp60.run Proofs.Mvp60Witness.dropApp (Proofs.Mvp60Witness.ctxS0 64) 2 2 1000).final.executed = 1 := by
+  have h := Proofs.Mvp60Witness.drop_p2
+  have h1 : (Model.Mvp60.run Proofs.Mvp60Witness.dropApp (Proofs.Mvp60Witness.ctxS0 64) 2 2 1000).halt = some .offEnd :=
+    congrArg Prod.fst h
+  have h2 : (Model.Mvp60.run Proofs.Mvp60Witness.dropApp (Proofs.Mvp60Witness.ctxS0 64) 2 2 1000).final.executed = 1 :=
+    congrArg (fun x => x.2.2.1) h
+  exact ⟨by rw [h1]; trivial, h2⟩
 
 end Props.C12
